@@ -8,6 +8,7 @@ Nothing here changes vlib.dbapi; everything is layered on top of it:
                     acknowledgements and reference-state capture.
   SeqFault          Fault that remembers at which event it fired.
   AfterFault        Fault armed only after another fault fired (two-fault plans).
+  DeadConnFault     a connection that dies at an event and stays dead (every later call on it fails).
   RandomFault       seeded per-event coin flip (multi-thread stress).
   conn_discipline   offline checker over a recorder log: every connection closed at
                     most once, nothing issued on a connection after its close returned.
@@ -23,6 +24,23 @@ class HookRecorder(Recorder):
     def __init__(self):
         Recorder.__init__(self)
         self.after_hook = None
+        self.conns = {}               # connection id -> weakref to the live connection object
+
+    def factory(rec):
+        """Same connection class as Recorder.factory(), plus a registry id -> connection object, so that monitors can
+        look at the real sqlite3 state (e.g. connection.in_transaction) of the connection an event belongs to."""
+        import weakref
+        Base = Recorder.factory(rec)
+        conns = rec.conns
+        class VConnRegistered(Base):
+            def __init__(self, *a, **kw):
+                Base.__init__(self, *a, **kw)
+                conns[self._vid] = weakref.ref(self)
+        return VConnRegistered
+
+    def connection(self, cid):
+        r = self.conns.get(cid)
+        return r() if r is not None else None
 
     def emit(self, kind, phase, conn, sql=None, args=None, err=None):
         ev = Recorder.emit(self, kind, phase, conn, sql, args, err)
@@ -63,6 +81,30 @@ class AfterFault(SeqFault):
         return SeqFault.match(self, ev)
 
 
+class DeadConnFault(SeqFault):
+    """A connection that dies: from the n-th matching event on, the connection that event belongs to is DEAD -- that
+    call and every later boundary call on the same connection object (any thread, any tag, any kind except close() and
+    a new connect()) raises, like a lost socket or file handle.  close() still works; new connections are healthy."""
+    def __init__(self, n, kinds=None, phase='call', exc=None, skip_tags=('monitor',)):
+        SeqFault.__init__(self, n, kinds=kinds, phase=phase, exc=exc, once=True, skip_tags=skip_tags)
+        self.dead_conn = None
+        self.calls_on_dead = 0
+
+    def match(self, ev):
+        if self.dead_conn is not None:
+            if ev['conn'] == self.dead_conn and ev['phase'] == 'call' and ev['kind'] not in ('close', 'connect'):
+                self.calls_on_dead += 1
+                self.fired += 1
+                return True
+            return False
+        if SeqFault.match(self, ev):
+            if ev['kind'] == 'connect' and ev['phase'] == 'call':
+                return True                      # the connection never came to life; nothing to keep dead
+            self.dead_conn = ev['conn']
+            return True
+        return False
+
+
 class RandomFault(SeqFault):
     """Fires with probability p at every matching event (at most `limit` times); decisions come from `rng`
     in event order, so a deterministic schedule gives a deterministic fault sequence."""
@@ -82,6 +124,24 @@ class RandomFault(SeqFault):
             self.fired_at.append(brief(ev))
             return True
         return False
+
+
+DML = ('INSERT', 'UPDATE', 'DELETE', 'REPLACE')
+
+
+def write_outside_transaction(rec, ev):
+    """Boundary invariant: right after a data-modifying statement returned, its connection must be inside a
+    transaction (pony binds SQLite with isolation_level=None, so a DML statement outside BEGIN..COMMIT is committed by
+    SQLite on the spot).  -> None or a description of the offending event."""
+    if ev['phase'] != 'ret' or ev['kind'] not in ('execute', 'executemany'): return None
+    sql = ev.get('sql')
+    if not isinstance(sql, str) or sql.lstrip().split(' ', 1)[0].upper() not in DML: return None
+    con = rec.connection(ev['conn'])
+    if con is None: return None
+    try: in_txn = con.in_transaction
+    except Exception: return None
+    if in_txn: return None
+    return {'seq': ev['seq'], 'conn': ev['conn'], 'sql': sql[:80], 'tag': ev.get('tag')}
 
 
 def brief(ev):
